@@ -22,6 +22,8 @@ import re
 import sympy as sp
 
 import featlib
+import norm_c05
+from norm_c05 import NotRecognised
 from featlib import Check, walk, render, is_call, rel
 
 LAFEM = featlib.repo_path("kernel/lafem/")
@@ -45,6 +47,7 @@ def strip_cast(n):
 
 def pointee(t):
     t = (t or "").strip()
+    t = re.sub(r"\*\s*const$", "*", t)        # T *const
     if not t.endswith("*"):
         return None
     t = t[:-1].strip()
@@ -114,6 +117,12 @@ def symbol(name):
 
 AL = sp.Function("AL")
 
+# registries shared by all LayoutFn objects of one run (keyed by canonical text, which identifies the value)
+_ENUMV = {}        # canonical text of an enumerator -> its integer value
+_COND_PARTS = {}   # canonical text "(a != b)" -> (a, b)
+_GV_REG = {}       # canonical text of a guarded value -> its decision tree (norm_c05.gv_*)
+_EST_REG = {}      # canonical text of a Pack::estimate_size call -> dict(count, ptype)
+
 
 # -------------------------------------------------------------------------------------------------
 # E12 cursor machine for buffer (de)serialisers
@@ -173,6 +182,8 @@ class LayoutFn:
         self.psub = psub or {}    # parameter index -> canonical text of the caller's argument
         self.alias = {}
         self.segvec = {}          # reader: local vector decl -> canonical SEGV name
+        self._ph = set()          # locals currently rendered as placeholders (guarded-value evaluation)
+        self._hdepth = 0
         self.prescan()
 
     # ---- pre-scan --------------------------------------------------------------------------------
@@ -229,6 +240,21 @@ class LayoutFn:
                 elif ini.get("k") == "Ref" and ini.get("d") in self.views:
                     self.views[d] = pt
                     changed = True
+        # offset views: constant pointer locals `T* p = view + off` / `&view[off]`; any other pointer local derived from the buffer is
+        # tainted (a pointer cursor into the buffer is not modelled: every statement that uses it is analysis-incomplete)
+        self.offviews, self.tainted = {}, set()
+        for d, v in self.decl.items():
+            if d in self.views or v.get("init") is None or pointee(fn.type(v.get("t"))) is None:
+                continue
+            mentions = any((x.get("k") == "Ref" and x.get("d") in self.views) or (x.get("k") == "MCall" and x.get("n") in ("data", "begin", "end") and self.is_root(x.get("obj")))
+                           for x in walk(v["init"]))
+            if not mentions:
+                continue
+            a = self.access(v["init"], resolve=False)
+            if a is not None and a["addr"] and self.assigned.get(d, 0) == 0 and d not in self.loopvars and a["unit"] == pointee(fn.type(v.get("t"))):
+                self.offviews[d] = a
+            else:
+                self.tainted.add(d)
         # cursors: non-loop integer locals used in subscripts of views / roots
         self.cursors = set()
         for n in fn.nodes():
@@ -274,10 +300,30 @@ class LayoutFn:
         if n.get("k") == "Un" and n.get("op") == "&" and not n.get("post"):
             addr = True
             n = strip_cast(n["e"])
+        elif n.get("k") == "Un" and n.get("op") == "*" and not n.get("post"):
+            # *(view + idx) is view[idx]
+            inner = self.access(n["e"], resolve)
+            if inner is not None and inner["addr"]:
+                inner = dict(inner)
+                inner["addr"] = False
+                return inner
+            return None
+        if n.get("k") == "Bin" and n.get("op") == "+":
+            # view + idx is &view[idx]
+            for b, i_ in ((n["lhs"], n["rhs"]), (n["rhs"], n["lhs"])):
+                b0 = strip_cast(b)
+                if b0.get("k") == "Ref" and b0.get("d") in self.views and not pointee(self.fn.ntype(strip_cast(i_)) or ""):
+                    return {"unit": self.views[b0["d"]], "idx": i_, "addr": True, "node": n}
+                if b0.get("k") == "MCall" and b0.get("n") == "data" and not b0.get("a") and self.is_root(b0.get("obj")):
+                    return {"unit": "char", "idx": i_, "addr": True, "node": n}
+            return None
         if n.get("k") == "Index":
             b = strip_cast(n["b"])
             if b.get("k") == "Ref" and b.get("d") in self.views:
                 return {"unit": self.views[b["d"]], "idx": n["idx"], "addr": addr, "node": n}
+            if b.get("k") == "Ref" and b.get("d") in getattr(self, "offviews", {}):
+                ov = self.offviews[b["d"]]
+                return {"unit": ov["unit"], "idx": {"k": "Bin", "op": "+", "lhs": n["idx"], "rhs": ov["idx"], "l": n.get("l")}, "addr": addr, "node": n}
         if n.get("k") == "OpCall" and n.get("op") == "[]" and len(n.get("a", [])) == 2 and self.is_root(n["a"][0]):
             return {"unit": "char", "idx": n["a"][1], "addr": addr, "node": n}
         return None
@@ -334,15 +380,25 @@ class LayoutFn:
                     return self.segvec[d]
                 if d in self.cursors:
                     raise Unknown("cursor '%s' used as a value in '%s'" % (n["n"], render(n)))
+                if d in self._ph:
+                    return norm_c05.GVEval.ph(d)
                 if self.const_local(d):
                     return c(self.decl[d]["init"])
                 v = self.decl.get(d)
                 if v is not None and v.get("init") is not None:
+                    g = self.gvalue(d)
+                    if g is not None:
+                        return g
                     return "var{%s}" % c(v["init"])
                 return "local{%s}" % self.fn.type(v.get("t") if v else None)
             if dk == "param":
                 pi = self.params.get(d, -1)
                 return self.psub.get(pi, "$p%d" % pi)
+            if dk == "enum" and n.get("v") is not None and n.get("qn"):
+                try:
+                    _ENUMV[n["qn"]] = int(n["v"])
+                except (TypeError, ValueError):
+                    pass
             return n.get("qn") or n.get("n")
         if k == "Member":
             b = n.get("b")
@@ -359,6 +415,10 @@ class LayoutFn:
             return "%s[%s]" % (c(n["b"]), c(n["idx"]))
         if k == "MCall":
             nm = n.get("n") or n.get("callee", "").rsplit("::", 1)[-1]
+            if n.get("a") and (n.get("obj") is None or strip_cast(n["obj"]).get("k") == "This"):
+                hv = self.helper_value(n, lv)
+                if hv is not None:
+                    return hv
             o = c(n.get("obj")) if n.get("obj") is not None else "this"
             if not n.get("a") and nm not in ("size", "length", "data", "begin", "end"):
                 g = self.getter_member(n)
@@ -381,7 +441,17 @@ class LayoutFn:
                 return "(%s %s %s)" % (xs[0], op, xs[1])
             return "%s(%s)" % (n.get("cfull") or n.get("callee"), ",".join(c(x) for x in a))
         if k == "Call":
-            return "%s(%s)" % (n.get("cfull") or n.get("callee"), ",".join(c(x) for x in n.get("a", [])))
+            hv = self.helper_value(n, lv)
+            if hv is not None:
+                return hv
+            args = [c(x) for x in n.get("a", [])]
+            text = "%s(%s)" % (n.get("cfull") or n.get("callee"), ",".join(args))
+            if strip_targs(n.get("callee", "")) == "FEAT::Pack::estimate_size" and len(args) >= 2:
+                pn = n.get("pn") or []
+                ci = pn.index("count") if "count" in pn else 0
+                ti = pn.index("type") if "type" in pn else (pn.index("pack_type") if "pack_type" in pn else 1)
+                _EST_REG[text] = {"count": args[ci], "ptype": args[ti]}
+            return text
         if k in ("Construct", "TempObj"):
             a = n.get("a", [])
             if len(a) == 1:
@@ -399,6 +469,133 @@ class LayoutFn:
         if k == "Cond":
             return "(%s ? %s : %s)" % (c(n["c"]), c(n["then"]), c(n["else"]))
         return render(n)
+
+    # ---- guarded values: locals updated under conditions, pure helpers with several returns -------------------
+    def gvalue(self, d):
+        """canonical text of the value a non-constant local has after the top-level statements that define it
+        (declaration, assignments, if / else-if chains of assignments), or None if it is defined in any other way"""
+        cache = self.__dict__.setdefault("_gv_cache", {})
+        if d in cache:
+            return cache[d]
+        cache[d] = None
+        top = []
+
+        def flat(ss):
+            for x in ss:
+                if x.get("k") == "Block":
+                    flat(x.get("s", []))
+                else:
+                    top.append(x)
+        flat(stmts_of(self.fn.body))
+
+        def defines(x):
+            if x.get("k") == "Var" and x.get("d") == d:
+                return True
+            if x.get("k") == "Assign":
+                l = strip_cast(x["lhs"])
+                return l.get("k") == "Ref" and l.get("d") == d
+            if x.get("k") == "Un" and x.get("op") in ("++", "--", "&") and not (x.get("op") == "&" and x.get("post")):
+                l = strip_cast(x["e"])
+                return l.get("k") == "Ref" and l.get("d") == d
+            return False
+
+        def only_assigns(ss):
+            for x in ss:
+                k_ = x.get("k")
+                if k_ == "Block":
+                    if not only_assigns(x.get("s", [])):
+                        return False
+                elif k_ == "If":
+                    if not only_assigns(stmts_of(x.get("then"))) or not only_assigns(stmts_of(x.get("else"))):
+                        return False
+                elif k_ == "Assign":
+                    l = strip_cast(x["lhs"])
+                    if not (l.get("k") == "Ref" and l.get("d") == d):
+                        return False
+                else:
+                    return False
+            return True
+        feed, last = [], -1
+        for i_, s_ in enumerate(top):
+            if any(defines(x) for x in walk(s_)):
+                k_ = s_.get("k")
+                if k_ == "Decl" and len(s_["vars"]) == 1:
+                    pass
+                elif k_ == "Assign" and defines(s_):
+                    pass
+                elif k_ == "If" and only_assigns([s_]):
+                    pass
+                else:
+                    return None
+                feed.append(s_)
+                last = i_
+        if not feed or feed[0].get("k") != "Decl":
+            return None
+        # every use comes after the last defining statement
+        for i_, s_ in enumerate(top[:last + 1]):
+            if s_ in feed:
+                continue
+            if any(x.get("k") == "Ref" and x.get("d") == d for x in walk(s_)):
+                return None
+        ev = norm_c05.GVEval(lambda e: self.canon(e, None), self.norm_cond, [d])
+        env = {}
+        self._ph.add(d)
+        try:
+            r = ev.run(feed, env)
+        except (NotRecognised, Unknown):
+            return None
+        finally:
+            self._ph.discard(d)
+        if r is not None or d not in env:
+            return None
+        text = norm_c05.gv_text(env[d])
+        _GV_REG[text] = env[d]
+        cache[d] = text
+        return text
+
+    def helper_value(self, call, lv=None):
+        """canonical text of the value returned by a side-effect free helper of the repository (declarations of constants, if / return),
+        with its parameters bound to the canonical arguments of the call; None if the callee is not of that form"""
+        if self._hdepth >= 3:
+            return None
+        g = norm_c05.callee_function(self.fn.facts, call)
+        if g is None or g.d.get("virtual") or not g.file.startswith(featlib.repo_path("")) or g.full == self.fn.full:
+            return None
+        if len(call.get("a", [])) != len(g.params):
+            return None
+        if strip_targs(call.get("callee", "")) in TRANSFER or strip_targs(call.get("callee", "")).startswith("FEAT::Pack::"):
+            return None
+        cache = self.fn.facts.__dict__.setdefault("_pure_helper", {})
+        key = g.d.get("decl")
+        if key not in cache:
+            ok = len(norm_c05._returns(g.body)) >= 2       # single-return helpers are inlined at statement level or rendered as calls
+            for x in walk(g.body):
+                k_ = x.get("k")
+                if k_ in ("Assign", "For", "While", "Do", "ForRange", "Switch", "Try", "Lambda", "New", "Delete", "Throw") or (k_ == "Un" and x.get("op") in ("++", "--")):
+                    ok = False
+                if k_ == "OpCall" and x.get("op") in ("=", "+=", "-=", "++", "--", "<<", ">>") and not x.get("cconst"):
+                    ok = False
+            for x in stmts_of(g.body):
+                if x.get("k") not in ("Decl", "If", "Return", "Block"):
+                    ok = False
+            cache[key] = ok
+        if not cache[key]:
+            return None
+        try:
+            psub = {i: self.canon(a, lv) for i, a in enumerate(call.get("a", []))}
+            H = LayoutFn(g, self.side, self.hsub, psub)
+            H._hdepth = self._hdepth + 1
+            tracked = [d_ for d_ in H.decl if not H.const_local(d_)]
+            ev = norm_c05.GVEval(lambda e: H.canon(e, None), H.norm_cond, tracked)
+            H._ph |= set(tracked)
+            r = ev.run(stmts_of(g.body), {})
+        except (NotRecognised, Unknown):
+            return None
+        if r is None:
+            return None
+        text = norm_c05.gv_text(r)
+        _GV_REG[text] = r
+        return text
 
     def getter_member(self, call):
         """`obj.get_x()` whose body is `return this->_x;` -> '_x'"""
@@ -468,7 +665,49 @@ class LayoutFn:
                 return True
             if k == "Return":
                 return True
-        return False
+        if self.tainted and any(x.get("k") == "Ref" and x.get("d") in self.tainted for x in walk(n)):
+            return True
+        return self.escape_of(n) is not None
+
+    def escape_of(self, n):
+        """a view of the buffer, the buffer itself, an address into it, or (by mutable reference / pointer) a cursor or accumulator handed to
+        a callee the analysis does not interpret: what that callee reads, writes or advances is unknown -> text describing it, else None"""
+        for x in walk(n):
+            if not is_call(x) or x.get("k") == "OpCall":
+                continue
+            base = strip_targs(x.get("callee", "") or "")
+            if base in TRANSFER or base == "FEAT::assertion" or x.get("noreturn"):
+                continue
+            if x.get("k") == "MCall" and self.is_root(x.get("obj")):
+                if x.get("n") not in ("data", "size", "resize", "reserve", "capacity", "empty", "begin", "end", "cbegin", "cend", "at", "shrink_to_fit"):
+                    return "the buffer is modified by '%s'" % render(x)[:70]
+                if x.get("n") in ("begin", "end", "cbegin", "cend"):
+                    return "iterator '%s' into the buffer" % render(x)[:70]
+                continue
+            if x.get("k") in ("Construct", "TempObj") and len(x.get("a", [])) <= 1 and not is_char_vector(self.fn.ntype(x)):
+                continue      # conversions such as Index(cursor)
+            pts = x.get("pt") or []
+            for i_, a in enumerate(x.get("a", [])):
+                a0 = strip_cast(a)
+                if a0 is None:
+                    continue
+                pt = self.fn.type(pts[i_]) if i_ < len(pts) and isinstance(pts[i_], int) else ""
+                mut = pt.rstrip().endswith("&") and not pt.lstrip().startswith("const ") or (pt.rstrip().endswith("*"))
+                if a0.get("k") == "Ref" and a0.get("d") in self.views:
+                    return "typed view '%s' of the buffer passed to %s" % (a0.get("n"), base or render(x)[:40])
+                if self.is_root(a0) and not (x.get("k") in ("Construct", "TempObj")):
+                    return "the buffer passed to %s" % (base or render(x)[:40])
+                if a0.get("k") == "Ref" and a0.get("dk") == "local" and (a0.get("d") in self.cursors or a0.get("d") in self.accs) and mut:
+                    return "cursor '%s' passed by mutable reference to %s" % (a0.get("n"), base or render(x)[:40])
+                try:
+                    acc = self.access(a0)
+                except Unknown:
+                    acc = None
+                if acc is not None and acc["addr"]:
+                    return "address '%s' into the buffer passed to %s" % (render(a0)[:40], base or render(x)[:40])
+                if a0.get("k") == "MCall" and a0.get("n") in ("data", "begin", "end") and self.is_root(a0.get("obj")):
+                    return "pointer '%s' into the buffer passed to %s" % (render(a0)[:40], base or render(x)[:40])
+        return None
 
     def run(self):
         st = State()
@@ -516,9 +755,10 @@ class LayoutFn:
                     ini = v["init"]
                     if ini.get("k") in ("Construct", "TempObj") and ini.get("a"):
                         st.alloc = strip_cast(ini["a"][0])
-                elif v.get("init") is not None and not self.const_local(d):
-                    pass
                 # reader: local vectors sized from the header are named when a segment fills them
+            esc = self.escape_of(s)
+            if esc is not None:
+                raise Unknown("declaration '%s' at line %s (%s)" % (render(s)[:80], s.get("l"), esc))
             return [st]
         if k == "If":
             if not self.relevant(s):
@@ -546,13 +786,16 @@ class LayoutFn:
         if k == "Assign":
             self.do_assign(s, st, None, None)
             return [st]
-        if k == "MCall":
-            if s.get("n") == "resize" and self.is_root(s.get("obj")):
-                st.resize = (self.canon(s["a"][0]), s.get("l"))
+        if k == "MCall" and s.get("n") == "resize" and self.is_root(s.get("obj")):
+            st.resize = (self.canon(s["a"][0]), s.get("l"))
             return [st]
         if self.relevant(s):
-            raise Unknown("statement '%s' touching the buffer / cursors at line %s" % (render(s)[:80], s.get("l")))
+            raise Unknown("statement '%s' touching the buffer / cursors at line %s%s" % (render(s)[:80], s.get("l"), self.why_escape(s)))
         return [st]
+
+    def why_escape(self, s):
+        e = self.escape_of(s)
+        return " (%s)" % e if e else ""
 
     def norm_cond(self, c):
         """canonical text and polarity of a branch condition: `!x` and `a == b` are the negations of `x` and `a != b`"""
@@ -560,10 +803,13 @@ class LayoutFn:
         if c.get("k") == "Un" and c.get("op") == "!":
             t, p_ = self.norm_cond(c["e"])
             return t, not p_
-        if c.get("k") in ("Bin", "OpCall") and c.get("op") == "==":
+        if c.get("k") in ("Bin", "OpCall") and c.get("op") in ("==", "!="):
             c2 = dict(c)
             c2["op"] = "!="
-            return self.canon(c2), False
+            text = self.canon(c2)
+            a_, b_ = (c["lhs"], c["rhs"]) if c.get("k") == "Bin" else (c["a"][0], c["a"][1])
+            _COND_PARTS[text] = (self.canon(a_), self.canon(b_))
+            return text, c.get("op") == "!="
         return self.canon(c), True
 
     def do_assign(self, s, st, lv, loop):
@@ -1051,6 +1297,34 @@ def align_allowance(L, st):
     return tot
 
 
+def path_decider(conds):
+    """conds: [(canonical condition text, polarity)] of one control path -> decide(text) -> True / False / None.
+    Besides the conditions themselves it decides `X != E` for an enumerator E when the path fixes X == E' (distinct enumerators
+    of one enum have distinct values, taken from the facts)."""
+    fixed = {t: p for t, p in conds}
+    equal = {}     # canonical operand -> enumerator it equals on this path
+    for t, p in conds:
+        if not p and t in _COND_PARTS:
+            a, b = _COND_PARTS[t]
+            if b in _ENUMV:
+                equal[a] = b
+            elif a in _ENUMV:
+                equal[b] = a
+
+    def decide(text):
+        if text in fixed:
+            return fixed[text]
+        parts = _COND_PARTS.get(text)
+        if parts is None:
+            return None
+        a, b = parts
+        for x, e in ((a, b), (b, a)):
+            if e in _ENUMV and x in equal:
+                return _ENUMV[equal[x]] != _ENUMV[e]
+        return None
+    return decide
+
+
 def slack_verdict(D, allow):
     """D = provided - needed bytes.  True: a constant >= the alignment slack; False: a definite shortfall (constant too small, or a negative
     multiple of a count of the container: fails for containers with enough arrays / scalars); None: contains terms the analysis cannot sign"""
@@ -1059,7 +1333,13 @@ def slack_verdict(D, allow):
     D = sp.expand(D)
     if D.is_Integer:
         return int(D) >= allow and int(D) >= 0
-    known = lambda s_: str(s_).startswith(("#", "SUM{", "sz["))
+    def known(s_):
+        t = str(s_)
+        if t.startswith(("#", "sz[")):
+            return True
+        # sums of entries of the container's own size tables over its own arrays; every other summand (calls, unevaluated
+        # pack types) has no sign the analysis knows
+        return re.match(r"^SUM\{[\w.]+\[\$i\]\|#[\w.]+\}$", t) is not None
     if not all(known(s_) for s_ in D.free_symbols):
         return None
     neg = False
@@ -1072,6 +1352,17 @@ def slack_verdict(D, allow):
     const = [t for t in sp.Add.make_args(D) if not t.free_symbols]
     c0 = int(const[0]) if const else 0
     return c0 >= allow     # surplus terms only add slack
+
+
+SERIAL_KEEP = ("_serialized_size", "_serialize", "_deserialize", "assign", "clone", "convert", "allocate_memory", "release_memory")
+
+
+def SERIAL_INLINE(call, g):
+    """helpers the (de)serialisers of LAFEM::Container may be split into: members of the same class template called on this, static
+    members and free functions defined in the same header; never the anchored functions themselves or what the rules interpret directly"""
+    if g.name in SERIAL_KEEP or strip_targs(g.full) in TRANSFER or g.full.startswith("FEAT::Pack::") or g.full.startswith("FEAT::MemoryPool"):
+        return False
+    return g.file.endswith("kernel/lafem/container.hpp")
 
 
 def check_container_serializer(ck, facts, cls_re, targs):
@@ -1090,6 +1381,8 @@ def check_container_serializer(ck, facts, cls_re, targs):
     if w is None or r is None or sz is None:
         ck.incomplete("E12.header-slots", "%s: _serialize/_deserialize/_serialized_size instantiation %s not found in the driver TU" % (inst, targs))
         return
+    # helpers of the class are inlined (bounded depth), std::copy / fill statements and while / pointer loops are brought to index loops
+    w, r, sz = (norm_c05.normalized(facts, f_, inline=SERIAL_INLINE) for f_ in (w, r, sz))
     try:
         W = LayoutFn(w, "w")
         wpaths = W.run()
@@ -1218,23 +1511,25 @@ def check_container_serializer(ck, facts, cls_re, targs):
         allow = align_allowance(W, st)
         ub = sp.expand(bytes_of_events(W, st, exact=False) + nslots * symbol("sz[%s]" % (hdr[0]["unit"] if 0 in hdr else "std::uint64_t")))
         exact = sp.expand(bytes_of_events(W, st, exact=True) + nslots * symbol("sz[%s]" % (hdr[0]["unit"] if 0 in hdr else "std::uint64_t")))
-        # relate the size function's loops to the payload loops of this path
+        # relate the size function's loops to the payload loops of this path: the pack type handed to Pack::estimate_size is evaluated
+        # on this compression branch (decision tree over the same conditions the branch was entered under); where it is the plain
+        # raw type deduct_type<T>() the estimate is count * sizeof(T) (stated assumption).  Anything else stays an unknown term.
         sub = {}
+        decide = path_decider(st.conds)
         for sy in Sexpr.free_symbols:
-            m = re.match(r"^SUM\{(FEAT::Pack::estimate_size\((.*),var\{FEAT::Pack::deduct_type<(.*)>\(\)\},(.*)\))\|(.*)\}$", str(sy))
-            if not m:
+            m = re.match(r"^SUM\{(.*)\|([^|]*)\}$", str(sy))
+            info = _EST_REG.get(m.group(1)) if m else None
+            if info is None:
                 continue
-            whole, cnt, T, tol, outer = m.groups()
+            outer = m.group(2)
+            tree = _GV_REG.get(info["ptype"], norm_c05.gv_leaf(info["ptype"]))
+            ptxt = norm_c05.gv_text(norm_c05.gv_prune(tree, decide))
+            m2 = re.match(r"^FEAT::Pack::deduct_type<(.*)>\(\)$", ptxt)
+            if not m2:
+                continue
             for e in st.events:
-                if e["kind"] != "payload" or e["count"] != cnt or e["T"] != T:
-                    continue
-                if outer != e["outer"]:
-                    continue
-                if e["packed"]:
-                    if e.get("buf_size") == whole:
-                        sub[sy] = symbol("SUM{%s|%s}" % (whole, e["outer"]))
-                else:
-                    sub[sy] = symbol("SUM{%s|%s}" % (cnt, e["outer"])) * symbol("sz[%s]" % T)
+                if e["kind"] == "payload" and not e["packed"] and e["count"] == info["count"] and e["outer"] == outer:
+                    sub[sy] = symbol("SUM{%s|%s}" % (info["count"], outer)) * symbol("sz[%s]" % m2.group(1))
         D = sp.simplify(sp.expand(Sexpr.subs(sub) - ub))
         verdict = slack_verdict(D, allow)
         if verdict is None:
@@ -2502,28 +2797,72 @@ class StreamFn(LayoutFn):
             if nm == "write" and len(s.get("a", [])) == 2:
                 self.events.append({"kind": "write", "src": self.describe_src(s["a"][0]), "n": self.ival(s["a"][1]), "line": s.get("l")})
                 return
+            if r == "ROOT" and nm in ("reserve", "shrink_to_fit", "size", "capacity", "empty", "data"):
+                return
+            if r == "ROOT":
+                raise Unknown("the stream is modified by '%s'" % render(s)[:80])
+            if any(self.root_name(a_) == "ROOT" for a_ in s.get("a", [])) or any(self.mentions_root(a_) for a_ in s.get("a", [])):
+                if nm in ("assertion",):
+                    return
+                raise Unknown("the stream is handed to '%s', which the analysis does not interpret" % render(s)[:80])
             return
         if k == "Call":
             cal = s.get("callee", "")
-            if cal in ("memcpy", "std::memcpy") and len(s.get("a", [])) == 3:
-                dst, src = self.ptr(s["a"][0]), self.ptr(s["a"][1])
-                if dst is not None and dst[0].startswith("VAR:") and src is not None and src[0] == "ROOT":
-                    d = int(dst[0][4:])
+            a = s.get("a", [])
+            tr = None     # (dst pointer, src pointer, byte count)
+            if cal in ("memcpy", "std::memcpy", "memmove", "std::memmove") and len(a) == 3:
+                tr = (self.ptr(a[0]), self.ptr(a[1]), self.ival(a[2]), a[0], a[1])
+            elif cal == "std::copy_n" and len(a) == 3:
+                tr = (self.ptr(a[2]), self.ptr(a[0]), self.ival(a[1]), a[2], a[0])
+            elif cal == "std::copy" and len(a) == 3:
+                f_, l_, d_ = self.ptr(a[0]), self.ptr(a[1]), self.ptr(a[2])
+                if f_ is not None and l_ is not None and f_[0] == l_[0]:
+                    if f_[0] == "BS" or (d_ is not None and d_[0] == "ROOT" and f_[0] == "BS") or (f_[0] == "BS" and d_ is not None):
+                        self.events.append({"kind": "copy", "base": f_[0], "from": f_[1], "to": l_[1], "dst": d_, "line": s.get("l")})
+                        return
+                    tr = (d_, f_, sp.expand(l_[1] - f_[1]), a[2], a[0])
+                elif self.mentions_root(s):
+                    raise Unknown("std::copy '%s'" % render(s)[:80])
+                else:
+                    return
+            if tr is not None:
+                dst, src, nbytes, dnode, snode = tr
+
+                def var_of(p_):
+                    if p_ is not None and p_[0].startswith("VAR:") and seq(p_[1]):
+                        return int(p_[0][4:])
+                    return None
+                if src is not None and src[0] == "ROOT" and var_of(dst) is not None:
+                    # a word of the stream is copied into an integer local: a read
+                    d = var_of(dst)
                     typ = self.fn.type(self.decl[d].get("t")) if d in self.decl else None
-                    self.vals[d] = self.read(src, self.ival(s["a"][2]), s.get("l"), typ)
+                    self.vals[d] = self.read(src, nbytes, s.get("l"), typ)
                     self.events[-1]["var_width"] = symbol("sz[%s]" % typ) if typ else None
                     return
-                if src is not None and src[0] == "ROOT" or dst is not None and dst[0] == "ROOT":
-                    raise Unknown("memcpy '%s'" % render(s)[:80])
+                if dst is not None and dst[0] == "ROOT" and src is not None and (var_of(src) is not None or src[0].startswith("ADDR:")):
+                    # the bytes of an integer local overwrite a word written earlier: a patch
+                    if src[0].startswith("ADDR:"):
+                        content = self.ival(self.addr_nodes[src[0]])
+                    else:
+                        content = self.vals.get(var_of(src))
+                    self.events.append({"kind": "patch", "pos": sp.expand(dst[1] - self.shift - self.start), "n": nbytes, "content": content, "line": s.get("l")})
+                    return
+                if (src is not None and src[0] in ("ROOT", "BS")) or (dst is not None and dst[0] == "ROOT") or self.mentions_root(s):
+                    raise Unknown("%s '%s'" % (cal, render(s)[:80]))
                 return
-            if cal == "std::copy" and len(s.get("a", [])) == 3:
-                a, b, c = self.ptr(s["a"][0]), self.ptr(s["a"][1]), self.ptr(s["a"][2])
-                if a is not None and b is not None and a[0] == b[0]:
-                    self.events.append({"kind": "copy", "base": a[0], "from": a[1], "to": b[1], "dst": c, "line": s.get("l")})
-                return
+            if self.mentions_root(s) and not (s.get("noreturn") or strip_targs(cal) == "FEAT::assertion"):
+                raise Unknown("the stream is handed to '%s', which the analysis does not interpret" % render(s)[:80])
             return
         if k == "For":
-            return self.do_patch_loop(s)
+            if self.do_patch_loop(s):
+                return
+            if self.mentions_root(s):
+                raise Unknown("loop at line %s touches the stream in a way the analysis does not model" % s.get("l"))
+            return
+        if k in ("While", "Do", "ForRange", "Switch", "Try"):
+            if self.mentions_root(s):
+                raise Unknown("%s statement at line %s touches the stream" % (k, s.get("l")))
+            return
         if k == "Return":
             e = s.get("e")
             if e is not None:
@@ -2531,10 +2870,12 @@ class StreamFn(LayoutFn):
             return
         if k == "If":
             # guards only (assertions / add_object); no stream activity expected
-            for x in walk(s):
-                if x.get("k") == "MCall" and x.get("n") in ("insert", "erase") and self.root_name(x.get("obj")) == "ROOT":
-                    raise Unknown("conditional stream update at line %s" % s.get("l"))
+            for br in (s.get("then"), s.get("else")):
+                if br is not None and (self.mentions_root(br) or any(x.get("k") == "Ref" and x.get("d") in self.ptrs for x in walk(br))):
+                    raise Unknown("conditional use of the stream at line %s" % s.get("l"))
             return
+        if k in ("Un", "OpCall", "Construct", "TempObj", "Delete") and (self.mentions_root(s) or any(x.get("k") == "Ref" and x.get("d") in self.ptrs and self.ptrs[x["d"]][0] in ("ROOT", "BS") for x in walk(s))):
+            raise Unknown("statement '%s' touches the stream" % render(s)[:80])
         return
 
     def describe_src(self, n):
@@ -2579,7 +2920,12 @@ class StreamFn(LayoutFn):
             self.vals[d] = self.ival(init)
 
     def mentions_root(self, n):
-        return any(self.root_name(x) == "ROOT" for x in walk(n) if x.get("k") in ("Ref", "Member"))
+        """does the subtree use the stream other than by asking for its size?"""
+        harmless = set()
+        for x in walk(n):
+            if x.get("k") == "MCall" and x.get("n") in ("size", "empty", "capacity", "length") and not x.get("a") and x.get("obj") is not None:
+                harmless.add(id(strip_cast(x["obj"])))
+        return any(self.root_name(x) == "ROOT" for x in walk(n) if x.get("k") in ("Ref", "Member") and id(x) not in harmless)
 
     def do_insert(self, s):
         a = s.get("a", [])
@@ -2605,31 +2951,69 @@ class StreamFn(LayoutFn):
         self.appended = self.appended + self.events[-1]["n"]
 
     def do_patch_loop(self, s):
-        """for(i = 0; i < N; ++i) root[snapshot + i] = p[i]   with p = (char*)&value"""
+        """for(i = 0; i < N; ++i) root[snapshot + i] = p[i]   with p = (char*)&value          (a patch of a word appended earlier)
+           for(i = 0; i < N; ++i) p[i] = root[pos + i]        with p = (char*)&value          (a read of a word)
+        -> True if the loop was one of these and an event was recorded, False if it is some other loop"""
         try:
             lvd, bound = self.loop_header(s)
         except Unknown:
-            return
+            return False
         body = stmts_of(s["body"])
-        if len(body) != 1 or body[0].get("k") != "Assign":
-            return
+        if len(body) != 1 or body[0].get("k") != "Assign" or body[0].get("op") != "=":
+            return False
         l, r = strip_cast(body[0]["lhs"]), strip_cast(body[0]["rhs"])
-        if not (l.get("k") == "OpCall" and l.get("op") == "[]" and self.root_name(l["a"][0]) == "ROOT"):
-            return
-        idx = strip_cast(l["a"][1])
-        if not (idx.get("k") == "Bin" and idx.get("op") == "+"):
-            raise Unknown("patch subscript '%s'" % render(idx))
-        sides = [strip_cast(idx["lhs"]), strip_cast(idx["rhs"])]
-        snap = [x for x in sides if x.get("d") != lvd]
-        if len(snap) != 1:
-            raise Unknown("patch subscript '%s'" % render(idx))
-        if not (r.get("k") == "Index" and strip_cast(r["idx"]).get("d") == lvd):
-            raise Unknown("patch source '%s'" % render(r))
-        src = self.ptr(r["b"])
-        content = None
-        if src is not None and src[0].startswith("VAR:"):
-            content = self.vals.get(int(src[0][4:]))
-        self.events.append({"kind": "patch", "pos": sp.expand(self.ival(snap[0]) - self.start), "n": self.ival(bound), "content": content, "line": s.get("l")})
+
+        def root_elem(x):
+            """root[a + i] / root.data()[a + i] / *(root.data() + a + i) -> node of a, else None"""
+            idx = None
+            if x.get("k") == "OpCall" and x.get("op") == "[]" and self.root_name(x["a"][0]) == "ROOT":
+                idx = strip_cast(x["a"][1])
+            elif x.get("k") == "MCall" and x.get("n") == "at" and self.root_name(x.get("obj")) == "ROOT" and len(x.get("a", [])) == 1:
+                idx = strip_cast(x["a"][0])
+            elif x.get("k") == "Index":
+                b_ = strip_cast(x["b"])
+                if b_.get("k") == "MCall" and b_.get("n") == "data" and self.root_name(b_.get("obj")) == "ROOT":
+                    idx = strip_cast(x["idx"])
+            if idx is None:
+                return None
+            if idx.get("k") == "Ref" and idx.get("d") == lvd:
+                return {"k": "Int", "v": "0"}
+            if not (idx.get("k") == "Bin" and idx.get("op") == "+"):
+                raise Unknown("stream subscript '%s'" % render(idx))
+            sides = [strip_cast(idx["lhs"]), strip_cast(idx["rhs"])]
+            other = [y for y in sides if not (y.get("k") == "Ref" and y.get("d") == lvd)]
+            if len(other) != 1:
+                raise Unknown("stream subscript '%s'" % render(idx))
+            return other[0]
+
+        def var_elem(x):
+            """p[i] with p = (char*)&value -> pointer tuple of p"""
+            if x.get("k") == "Index" and strip_cast(x["idx"]).get("k") == "Ref" and strip_cast(x["idx"]).get("d") == lvd:
+                return self.ptr(x["b"])
+            return None
+        snap = root_elem(l)
+        if snap is not None:
+            src = var_elem(r)
+            if src is None:
+                raise Unknown("patch source '%s'" % render(r))
+            content = None
+            if src[0].startswith("VAR:"):
+                content = self.vals.get(int(src[0][4:]))
+            elif src[0].startswith("ADDR:"):
+                content = self.ival(self.addr_nodes[src[0]])
+            self.events.append({"kind": "patch", "pos": sp.expand(self.ival(snap) - self.start), "n": self.ival(bound), "content": content, "line": s.get("l")})
+            return True
+        pos = root_elem(r)
+        if pos is not None:
+            dst = var_elem(l)
+            if dst is None or not dst[0].startswith("VAR:"):
+                raise Unknown("byte loop reading the stream into '%s'" % render(l))
+            d = int(dst[0][4:])
+            typ = self.fn.type(self.decl[d].get("t")) if d in self.decl else None
+            self.vals[d] = self.read(("ROOT", self.shift + self.ival(pos)), self.ival(bound), s.get("l"), typ)
+            self.events[-1]["var_width"] = symbol("sz[%s]" % typ) if typ else None
+            return True
+        return False
 
 
 def record_items(events):
@@ -3151,12 +3535,12 @@ def check_pack(ck, facts):
                         continue
                     ok = element_size(int(rets[0]["v"])) == int(l)
                     ck.ob("E12.pack-cases", "%s/deduct/%s" % (hs, l), ok, "sizeof(T) = %s -> %s with element_size %s" % (l, rets[0].get("qn"), element_size(int(rets[0]["v"]))), f.file, rets[0].get("l"))
-    # ---- conversion loops
+    # ---- conversion loops (index loops, lock-step pointer loops, while loops: all brought to for(i = 0; i < N; ++i) first)
     done = set()
     for nm in ("FEAT::Pack::Intern::xencode", "FEAT::Pack::Intern::xdecode"):
-        for f in byname.get(nm, []):
+        for f0 in byname.get(nm, []):
+            f = norm_c05.normalized(facts, f0, inline=None, algorithms=True, loops=True)
             short = nm.rsplit("::", 1)[-1]
-            tx = targs_of(f.full).split(",")[0].strip()
             view = None
             for n in f.nodes():
                 if n.get("k") == "Decl":
@@ -3170,10 +3554,10 @@ def check_pack(ck, facts):
             arr = [p for p in f.params if pointee(f.type(p["t"])) is not None and p["d"] != view[2]]
             rets = [n for n in f.nodes() if n.get("k") == "Return"]
             cnt = None
-            if len(rets) == 1:
-                e = strip_cast(rets[0]["e"])
+            if len(rets) == 1 and rets[0].get("e") is not None:
+                e = through_consts(f, rets[0]["e"])
                 if e.get("k") == "Bin" and e.get("op") == "*":
-                    sides = [strip_cast(e["lhs"]), strip_cast(e["rhs"])]
+                    sides = [through_consts(f, e["lhs"]), through_consts(f, e["rhs"])]
                     so = [x for x in sides if x.get("k") == "SizeOf"]
                     rf = [x for x in sides if x.get("k") == "Ref" and x.get("dk") == "param"]
                     if so and rf:
@@ -3182,24 +3566,42 @@ def check_pack(ck, facts):
                         if (short, "return", okr) not in done:
                             done.add((short, "return", okr))
                             ck.ob("E2.pack-loops", "%s/return" % short, okr, "returns count*sizeof(%s); buffer elements are %s" % (so[0].get("type"), view[1]), f.file, rets[0].get("l"))
-            loops = [n for n in walk(f.body) if n.get("k") == "For"]
+            if cnt is None or not arr:
+                if (short, "return", "inc") not in done:
+                    done.add((short, "return", "inc"))
+                    ck.incomplete("E2.pack-loops", "%s: the returned byte count is not recognised as <count parameter> * sizeof(<buffer element>) (%s)" % (
+                        f.full, render(rets[0].get("e"))[:60] if len(rets) == 1 else "%d return statements" % len(rets)))
+                continue
+            loops = [n for n in walk(f.body) if n.get("k") in ("For", "While", "Do", "ForRange")]
             for bi, lp in enumerate(loops):
                 L = LayoutFn(f, "w")
                 ok, detail = False, "loop not recognised"
                 try:
+                    if lp.get("k") != "For":
+                        raise Unknown("%s loop at line %s has no induction the analysis can bring to i = 0 .. N-1%s" % (
+                            lp["k"], lp.get("l"), "".join("; " + x for x in getattr(f, "norm_log", [])[:1])))
                     lvd, bound = L.loop_header(lp)
                     b = stmts_of(lp["body"])
-                    if len(b) == 1 and b[0].get("k") == "Assign":
-                        l = strip_cast(b[0]["lhs"])
-                        reads = [x for x in walk(b[0]["rhs"]) if x.get("k") == "Index"]
-                        if l.get("k") == "Index" and len(reads) == 1:
+                    if len(b) == 1 and b[0].get("k") == "Assign" and b[0].get("op") == "=":
+                        def as_index(n_):
+                            """*p is p[0]"""
+                            if n_.get("k") == "Un" and n_.get("op") == "*" and not n_.get("post") and strip_cast(n_["e"]).get("k") == "Ref":
+                                return {"k": "Index", "b": n_["e"], "idx": {"k": "Int", "v": "0"}, "l": n_.get("l")}
+                            return n_
+                        l = as_index(strip_cast(b[0]["lhs"]))
+                        reads = [as_index(x) for x in walk(b[0]["rhs"]) if x.get("k") == "Index" or (x.get("k") == "Un" and x.get("op") == "*" and not x.get("post"))]
+                        if l.get("k") == "Index" and len(reads) == 1 and reads[0].get("k") == "Index":
                             r = reads[0]
-                            dst_b, src_b = strip_cast(l["b"]).get("d"), strip_cast(r["b"]).get("d")
-                            want = (view[0], arr[0]["d"]) if short == "xencode" else (arr[0]["d"], view[0])
-                            ok = (strip_cast(bound).get("d") == cnt and strip_cast(l["idx"]).get("d") == lvd and strip_cast(r["idx"]).get("d") == lvd and (dst_b, src_b) == want)
-                            detail = "for i < %s: %s[%s] <- %s[%s]" % (render(bound), render(l["b"]), render(l["idx"]), render(r["b"]), render(r["idx"]))
+                            dst_b, src_b = strip_cast(l["b"]), strip_cast(r["b"])
+                            if dst_b.get("k") == "Ref" and src_b.get("k") == "Ref":
+                                want = (view[0], arr[0]["d"]) if short == "xencode" else (arr[0]["d"], view[0])
+                                ok = (through_consts(f, bound).get("d") == cnt and strip_cast(l["idx"]).get("d") == lvd and strip_cast(r["idx"]).get("d") == lvd
+                                      and (dst_b.get("d"), src_b.get("d")) == want)
+                                detail = "for i < %s: %s[%s] <- %s[%s]" % (render(bound), render(l["b"]), render(l["idx"]), render(r["b"]), render(r["idx"]))
                 except Unknown as e:
                     detail = str(e)
+                    if getattr(f, "norm_log", None) and "norm" not in detail:
+                        detail += "".join("; " + x for x in f.norm_log[:1])
                 key = "%s/loop%d" % (short, bi)
                 if detail == "loop not recognised" or (not ok and not detail.startswith("for i <")):
                     if (key, "inc") not in done:
